@@ -97,16 +97,18 @@ Hypothesis H_next : forall cs a, oks cs -> 0 <= a < zlen cs ->
   Width.move_next_char m (flat cs) (off cs a) (zlen (flat cs)) = Ok (off cs (a + 1)).
 Hypothesis H_tpos : forall d a b col p, oks d -> 0 <= a <= b -> b <= zlen d -> 0 <= col ->
   btpos wcw m (flat d) (off d a) (off d b) col = Ok p -> exists j, a <= j <= b /\ p = off d j.
-(* the key strings whose insertion keeps the text well-formed, with their characters *)
+(* key.encode(get_encoding(), "replace"); [keyok] = the key strings that are encoded as themselves
+   (character names = code points), with their characters *)
+Variable kenc : list Z -> list Z.
 Variable keyok : list Z -> bool.
 Variable keyA : list Z -> list A.
 Hypothesis H_key : forall cs, keyok cs = true ->
-  utf8_encode_str cs = Ok (flat (keyA cs)) /\ oks (keyA cs) /\ map code (keyA cs) = cs.
+  kenc cs = flat (keyA cs) /\ oks (keyA cs) /\ map code (keyA cs) = cs.
 Variable chA : Z -> A.                 (* the character of an ASCII code (blank, newline) *)
 Hypothesis H_ascii : forall c, c = 32 \/ c = 10 -> enc1 (chA c) = [c] /\ okc (chA c) /\ code (chA c) = c.
 
 Notation ref_key := (ref_key (Width.cw wcw) upper lower).
-Notation bkeypress := (bkeypress wcw m).
+Notation bkeypress := (bkeypress wcw m kenc).
 
 (* ---------- the boundary map ---------- *)
 Lemma flat_app a b : flat (a ++ b) = flat a ++ flat b.
@@ -366,6 +368,19 @@ Proof.
       replace (Z.min (off cs (pos ss)) (zlen (flat cs'))) with (off cs' (pos ss)) by lia.
       rewrite <- Et'. splits; auto; try discriminate.
       apply Rg_put; auto; lia.
+Qed.
+
+(* any accepted key string whose bytes in the byte encoding are the well-formed characters xs: those
+   characters are inserted at the cursor (no restriction to ASCII; xs = "?" for an unencodable key) *)
+Theorem g_text_key_sim sb ss cs xs w lay :
+  Rg sb ss -> bvalid_char wcw cs = Ok true -> kenc cs = flat xs -> oks xs ->
+  let '(sb', sg, r) := bkeypress sb (KText cs) w lay in
+  Rg sb' (put ss (ins_at (text ss) (pos ss) (map code xs)) (pos ss + zlen (map code xs))) /\
+  r = Ok RHandled /\ chain (text sb) sg (text sb').
+Proof.
+  intros R Hv Hk Ho. unfold EditBytes.bkeypress. rewrite Hv, Hk.
+  pose proof (g_insert sb ss xs R Ho) as B.
+  destruct (insert_text sb (flat xs)) as [sb' sg]. destruct B as (B1 & B2). auto.
 Qed.
 
 (* tab: the number of blanks comes from the BYTE offset *)
@@ -653,7 +668,7 @@ Proof.
   unfold EditBytes.bkeypress.
   destruct k.
   - destruct (bvalid_char wcw cs) as [[|]|]; try apply g_same_frame_refl.
-    destruct (utf8_encode_str cs); [|apply g_same_frame_refl]. unfold g_same_frame; cbn; auto.
+    unfold g_same_frame; cbn; auto.
   - destruct (allow_tab sb) eqn:E; [|apply g_same_frame_refl]. unfold g_same_frame; cbn; auto.
   - destruct (multiline sb) eqn:E; [|apply g_same_frame_refl]. unfold g_same_frame; cbn; auto.
   - destruct (pos sb =? 0); [apply g_same_frame_refl|].
@@ -765,9 +780,9 @@ Qed.
 Definition g_ev_ok (sb : st) (e : event) : Prop :=
   match e with
   | EKey (KText cs) _ _ =>
-      (* an accepted key string keeps the text well-formed; a key that is refused or cannot be encoded
-         changes nothing *)
-      keyok cs = true \/ bvalid_char wcw cs <> Ok true \/ (exists e, utf8_encode_str cs = Err e)
+      (* a refused key changes nothing; an accepted one is inserted as the bytes the codec gives, which
+         must be well-formed characters *)
+      bvalid_char wcw cs <> Ok true \/ (exists xs, kenc cs = flat xs /\ oks xs)
   | EKey (KUp | KDown | KHome | KEnd) _ lay | EClick _ _ _ _ lay =>
       forall d, disp sb = flat d -> oks d -> glay_bnd d lay
   | ESetPos p => forall t, text sb = flat t -> oks t -> gbnd t (clampz p 0 (zlen (text sb)))
@@ -775,16 +790,24 @@ Definition g_ev_ok (sb : st) (e : event) : Prop :=
   end.
 
 Theorem g_step_OnG sb e :
-  OnG sb -> g_ev_ok sb e -> OnG (fst (fst (bstep wcw m sb e))).
+  OnG sb -> g_ev_ok sb e -> OnG (fst (fst (bstep wcw m kenc sb e))).
 Proof.
   intros HB Hok. destruct e as [k w lay|b c rw w lay|f w lay|w lay|p]; cbn [bstep].
   - destruct k; cbn [g_ev_ok] in Hok;
       try (apply g_key_layout_OnG; [exact HB|exact Hok|exact I]);
       try (apply g_key_edit_OnG; [exact HB|exact I]).
     + (* KText *)
-      destruct Hok as [Hok|[Hok|[e Hok]]]; [apply g_key_edit_OnG; [exact HB|exact Hok]| |].
+      destruct Hok as [Hok|(xs & Hx & Ox)].
       * unfold EditBytes.bkeypress. destruct (bvalid_char wcw cs) as [[|]|]; try exact HB. contradiction Hok; reflexivity.
-      * unfold EditBytes.bkeypress. destruct (bvalid_char wcw cs) as [[|]|]; try exact HB. rewrite Hok. exact HB.
+      * destruct (bvalid_char wcw cs) as [[|]|] eqn:Ev.
+        -- pose proof HB as (c & t & j & Hc & Sc & Ht & St_ & Hj & Hp & Hm).
+           pose proof (OnG_Rg sb c t j Hc Ht St_ Hj Hp) as R.
+           pose proof (g_text_key_sim sb _ cs xs w lay R Ev Hx Ox) as S.
+           pose proof (g_keypress_frame sb (KText cs) w lay) as F.
+           destruct (bkeypress sb (KText cs) w lay) as [[sb' sg] r]. cbn [fst] in *.
+           destruct S as (R' & _). eapply g_Rg_OnG; eauto.
+        -- unfold EditBytes.bkeypress. rewrite Ev. exact HB.
+        -- unfold EditBytes.bkeypress. rewrite Ev. exact HB.
     + (* KTab *)
       pose proof HB as (c & t & j & Hc & Sc & Ht & St_ & Hj & Hp & Hm).
       pose proof (OnG_Rg sb c t j Hc Ht St_ Hj Hp) as R.
@@ -819,20 +842,20 @@ Qed.
 Fixpoint g_evs_ok (sb : st) (es : list event) : Prop :=
   match es with
   | [] => True
-  | e :: r => g_ev_ok sb e /\ g_evs_ok (fst (fst (bstep wcw m sb e))) r
+  | e :: r => g_ev_ok sb e /\ g_evs_ok (fst (fst (bstep wcw m kenc sb e))) r
   end.
 
 Theorem g_run_OnG es : forall sb,
   OnG sb -> g_evs_ok sb es ->
-  Forall (fun o => OnG (fst (fst o))) (snd (brun wcw m sb es)) /\ OnG (fst (brun wcw m sb es)).
+  Forall (fun o => OnG (fst (fst o))) (snd (brun wcw m kenc sb es)) /\ OnG (fst (brun wcw m kenc sb es)).
 Proof.
   induction es as [|e r IH]; intros sb HB Hok.
   - cbn. auto.
   - cbn [brun]. destruct Hok as [H1 H2].
     pose proof (g_step_OnG sb e HB H1) as B1.
-    destruct (bstep wcw m sb e) as [[s1 sg] rt]. cbn [fst] in *.
+    destruct (bstep wcw m kenc sb e) as [[s1 sg] rt]. cbn [fst] in *.
     destruct (IH s1 B1 H2) as [A0 B].
-    destruct (brun wcw m s1 r) as [s2 outs]. cbn [fst snd] in *. split; [constructor; assumption|assumption].
+    destruct (brun wcw m kenc s1 r) as [s2 outs]. cbn [fst snd] in *. split; [constructor; assumption|assumption].
 Qed.
 
 End Scheme.
